@@ -4,7 +4,7 @@
      [1; ub; two; n; k1;f1;r1;t1; ...]     accepted: ub = the sleep-map lookup dereferenced end(); two = at some
                                            point two clients held the lock incompatibly; then the n results in
                                            completion order as (kind, fiber, result, time) *)
-From Coq Require Import List Arith Bool.
+From Coq Require Import List Arith Bool NArith.
 Import ListNotations.
 From YV Require Import model.FiberSync.
 
@@ -88,3 +88,120 @@ Definition jn_obs (root : fid) (tr : list Jn.ev) : list nat :=
 Definition tl_obs (tr : list Tl.ev) : list nat :=
   let s := Tl.run Tl.init tr in
   [1; length (Tl.reads s)] ++ flat_map (fun p => [fst (fst p); snd (fst p); snd p]) (rev (Tl.reads s)).
+
+(* ------------------------------------------------------------------------------------------------------------
+   Bulk replay.  The explorer's executions of one scenario share long prefixes, so the checker sends them as a
+   prefix tree of compactly encoded events (numbers in binary) and gets back one outcome per leaf, in order. *)
+Inductive cev := R (f t : N) | O (f c a b : N).
+Inductive trie := Leaf | Seq (e : cev) (t : trie) | Alt (a b : trie).
+
+Fixpoint leaves (t : trie) : nat :=
+  match t with Leaf => 1 | Seq _ k => leaves k | Alt a b => leaves a + leaves b end.
+
+Section Trie.
+  Context {S E : Type}.
+  Variable step : S -> E -> option S.
+  Variable bad : S -> bool.
+  Variable dec : cev -> option E.
+  Variable fin : S -> bool -> list nat.
+  Fixpoint run_trie (s : S) (seen : bool) (i : nat) (t : trie) : list (list nat) :=
+    match t with
+    | Leaf => [fin s (seen || bad s)]
+    | Seq c k =>
+        match dec c with
+        | Some e =>
+            match step s e with
+            | Some s' => run_trie s' (seen || bad s) (Datatypes.S i) k
+            | None => repeat [0; i] (leaves k)
+            end
+        | None => repeat [0; i] (leaves k)
+        end
+    | Alt a b => run_trie s seen i a ++ run_trie s seen i b
+    end.
+End Trie.
+
+Definition n (x : N) : nat := N.to_nat x.
+
+Definition mx_dec (c : cev) : option Mx.ev :=
+  match c with
+  | R f t => Some (Mx.ERun (n f) (n t))
+  | O f c a b =>
+      option_map (Mx.EOp (n f))
+        match n c with
+        | 1 => Some Mx.OLock | 2 => Some Mx.OTry | 3 => Some (Mx.OUnlock (n a))
+        | 4 => Some (Mx.OTimed (Dur (n a))) | 5 => Some (Mx.OTimed (Abs (n a)))
+        | 6 => Some (Mx.OCvWait None (n b)) | 7 => Some (Mx.OCvWait (Some (Dur (n a))) (n b))
+        | 8 => Some (Mx.OCvWait (Some (Abs (n a))) (n b))
+        | 9 => Some (Mx.ONotifyOne (n a)) | 10 => Some Mx.ONotifyAll | 11 => Some (Mx.OSleep (n a))
+        | _ => None
+        end
+  end.
+Definition mx_fin (s : Mx.st) (two : bool) : list nat :=
+  [1; encb (ub (Mx.sm s)); encb two; length (Mx.log s)] ++ flat_map mx_res (rev (Mx.log s)).
+Definition mx_trie (v : variant) (t : trie) : list (list nat) :=
+  run_trie (Mx.step v) mx_bad mx_dec mx_fin Mx.init false 0 t.
+
+Definition rc_dec (c : cev) : option Rc.ev :=
+  match c with
+  | R f t => Some (Rc.ERun (n f) (n t))
+  | O f c a b =>
+      option_map (Rc.EOp (n f))
+        match n c with
+        | 1 => Some Rc.OLock | 2 => Some Rc.OTry | 3 => Some (Rc.OUnlock (n a))
+        | 4 => Some (Rc.OTimed (Dur (n a))) | 5 => Some (Rc.OTimed (Abs (n a)))
+        | _ => None
+        end
+  end.
+Definition rc_fin (s : Rc.st) (two : bool) : list nat :=
+  [1; encb (ub (Rc.sm s)); encb two; length (Rc.log s)] ++ flat_map rc_res (rev (Rc.log s)).
+Definition rc_trie (v : variant) (t : trie) : list (list nat) :=
+  run_trie (Rc.step v) rc_bad rc_dec rc_fin Rc.init false 0 t.
+
+Definition sh_dec (c : cev) : option Sh.ev :=
+  match c with
+  | R f t => Some (Sh.ERun (n f) (n t))
+  | O f c a b =>
+      option_map (Sh.EOp (n f))
+        match n c with
+        | 1 => Some Sh.OLockX | 2 => Some Sh.OTryX | 3 => Some (Sh.OUnlockX true (n a))
+        | 4 => Some (Sh.OTimedX (Dur (n a))) | 5 => Some (Sh.OTimedX (Abs (n a)))
+        | 11 => Some Sh.OLockS | 12 => Some Sh.OTryS | 13 => Some (Sh.OUnlockS (n a))
+        | 14 => Some (Sh.OTimedS (Dur (n a))) | 15 => Some (Sh.OTimedS (Abs (n a)))
+        | _ => None
+        end
+  end.
+Definition sh_fin (s : Sh.st) (two : bool) : list nat :=
+  [1; encb (ub (Sh.sm s)); encb two; length (Sh.log s)] ++ flat_map sh_res (rev (Sh.log s)).
+Definition sh_trie (v : variant) (t : trie) : list (list nat) :=
+  run_trie (Sh.step v) sh_bad sh_dec sh_fin Sh.init false 0 t.
+
+(* O f c a _ : 1 spawn f->a, 2 exit f, 3 f joins a, 4 f resumed inside join, 5 f detaches a *)
+Definition jn_dec (c : cev) : option Jn.ev :=
+  match c with
+  | R _ _ => None
+  | O f c a b =>
+      match n c with
+      | 1 => Some (Jn.ESpawn (n f) (n a)) | 2 => Some (Jn.EExit (n f)) | 3 => Some (Jn.EJoin (n f) (n a))
+      | 4 => Some (Jn.ERun (n f)) | 5 => Some (Jn.EDetach (n f) (n a))
+      | _ => None
+      end
+  end.
+Definition jn_fin (s : Jn.st) (_ : bool) : list nat :=
+  [1; length (Jn.log s)] ++ flat_map (fun p => [fst (fst p); snd (fst p); encb (snd p)]) (rev (Jn.log s)).
+Definition jn_trie (t : trie) : list (list nat) :=
+  run_trie Jn.step (fun _ => false) jn_dec jn_fin (Jn.init 0) false 0 t.
+
+(* O f c a b : 1 fiber f stores b into variable a, 2 fiber f reads variable a *)
+Definition tl_dec (c : cev) : option Tl.ev :=
+  match c with
+  | R _ _ => None
+  | O f c a b =>
+      match n c with
+      | 1 => Some (Tl.ESet (n f) (n a) (n b)) | 2 => Some (Tl.EGet (n f) (n a))
+      | _ => None
+      end
+  end.
+Definition tl_fin (s : Tl.st) (_ : bool) : list nat :=
+  [1; length (Tl.reads s)] ++ flat_map (fun p => [fst (fst p); snd (fst p); snd p]) (rev (Tl.reads s)).
+Definition tl_trie (t : trie) : list (list nat) :=
+  run_trie (fun s e => Some (Tl.step s e)) (fun _ => false) tl_dec tl_fin Tl.init false 0 t.
